@@ -61,7 +61,8 @@ Suite == {AccessTab[q] \o m \o w : q \in States, m \in StrUpTo(3), w \in W}     
 (* ---------- the machine ---------- *)
 VARIABLES s, pos, q, ib, ie, fb, fe, es, eb, ee
 vars == <<s, pos, q, ib, ie, fb, fe, es, eb, ee>>
-Init == /\ IF Mode = "all" THEN s \in StrUpTo(MaxLen) \ {<<>>} ELSE s \in Suite \ {<<>>}
+\* (function sets are enumerated lazily: 11^6 strings exceed TLC's limit for an explicit set)
+Init == /\ IF Mode = "all" THEN (\E n \in 1..MaxLen : s \in [1..n -> Sigma]) ELSE s \in Suite \ {<<>>}
         /\ pos = 1 /\ q = "S"
         /\ ib = 0 /\ ie = 0 /\ fb = 0 /\ fe = 0 /\ es = "" /\ eb = 0 /\ ee = 0
 Step == /\ pos <= Len(s)
